@@ -223,6 +223,35 @@ def run(ctx):
                 srcs.add(k)
     ctx.ob('C11.r6', T.name, 'timeout scan covers the state request, last state age and the three per-peer requests', len(srcs) == 5, got=sorted(srcs))
 
+    # ---- r10 work lists are fresh (added after seeded C11-5) -------------------------------------
+    # The selector predicates (get_peers_which_require_*) pick peers by their CURRENT state, and r3 ties each predicate to the
+    # Some-domain of the transition its consumer makes (the `take()`-then-`?` hazard: a rejected transition leaves the peer
+    # Initialized, proof discarded).  That agreement only helps if no other state-changing request is sent between computing a
+    # list and consuming it: a Ready peer that is in the new-state list AND in a stale new-proof list gets GetLastState
+    # (Ready -> RequestNewLastState) and then request_last_state_proof on the wrong state.
+    ACTIONS = {'LightClientProtocol::get_last_state': 'Peers::get_peers_which_require_new_state',
+               'LightClientProtocol::get_last_state_proof': 'Peers::get_peers_which_require_new_proof'}
+    asites = {a: P.call_sites(R, a) for a in ACTIONS}
+    for a, sel in ACTIONS.items():
+        ss = P.call_sites(R, sel)
+        if not ss or not asites[a]:
+            ctx.ob('C11.r10', R.name, 'the peers sent %s are selected by %s in refresh_all_peers' % (a.split('::')[-1], sel.split('::')[-1]), False,
+                   problem='selector or action call not found', selectors=len(ss), actions=len(asites[a]))
+            continue
+        for sb, st in ss:
+            after_sel = cfg.reachable_from(cfg.succ[sb])
+            stale = []
+            for other, osites in asites.items():
+                if other == a:
+                    continue
+                for ob_, ot in osites:
+                    if ob_ in after_sel and any(ab in cfg.reachable_from(cfg.succ[ob_]) for ab, _ in asites[a]):
+                        stale.append(other)
+            ctx.ob('C11.r10', R.name, 'no other request is sent between selecting peers with %s and sending them %s (the list is not stale)'
+                   % (sel.split('::')[-1], a.split('::')[-1]), not stale, at=st.span, intervening=sorted(set(stale)),
+                   failing_history=None if not stale else 'Ready peer with an unproved last state older than the refresh interval is in both lists: GetLastState moves it to '
+                   'RequestNewLastState, then request_last_state_proof is rejected on that state and `state.take()?` leaves it Initialized: proof discarded, honest SendLastState banned')
+
     # ---- r7 status mapping ------------------------------------------------------------------
     status_rules(ctx)
     # reviewed reference of the selector / timeout predicates (engine/census.py)
